@@ -20,13 +20,18 @@ L3: the property itself on the real code with REAL threads: a thread is blocked
     conversation (clf.connect() on a scripted NFC-DEP MAC), every thread must
     finish within a hard time limit with a return value or nfc.llcp.Error;
     connect() must return; later calls must return; SNEP / handover server
-    threads must exit.  Threads are daemons and every join has a timeout.
+    threads must exit.  Threads are daemons and every join has a timeout.  2-3 threads are blocked in the same call on
+    the same socket (and three resolvers on the one controller): notify() vs notify_all().
+
+Parts (run after this module, same evidence file):
+  props/c09_multi.py  several threads on one socket under a deterministic scheduler, tied to NfcVerif.TermMulti; the
+                      SNEP / handover service threads and application threads against the real run loop
+  props/c09_races.py  terminate() placed in front of every source line a call executes without holding a lock
 """
 import ast
 import errno
 import logging
 import os
-import sys
 import threading
 import time
 
